@@ -216,6 +216,103 @@ def judge_simple_chain(ver, st):
     return out
 
 
+# child -> (parent, method); the chain ends at xs:anyType (None)
+X_PARENT = {'xs:int': ('xs:anySimpleType', 'restriction'), 'xs:anySimpleType': ('xs:anyType', 'restriction'),
+            'ST': ('xs:int', 'restriction'), 'CE': ('ST', 'extension'), 'CR': ('CE', 'restriction'), 'CRE': ('CR', 'extension'),
+            'B': ('xs:anyType', 'restriction'), 'E': ('B', 'extension'), 'ER': ('E', 'restriction'), 'xs:anyType': None}
+X_TYPES = ('<xs:simpleType name="ST"><xs:restriction base="xs:int"><xs:maxInclusive value="100"/></xs:restriction></xs:simpleType>'
+           '<xs:complexType name="CE"><xs:simpleContent><xs:extension base="ST"><xs:attribute name="u" type="xs:string"/>'
+           '</xs:extension></xs:simpleContent></xs:complexType>'
+           '<xs:complexType name="CR"><xs:simpleContent><xs:restriction base="CE"><xs:maxInclusive value="50"/></xs:restriction>'
+           '</xs:simpleContent></xs:complexType>'
+           '<xs:complexType name="CRE"><xs:simpleContent><xs:extension base="CR"><xs:attribute name="w" type="xs:string"/>'
+           '</xs:extension></xs:simpleContent></xs:complexType>'
+           '<xs:complexType name="B"><xs:sequence><xs:element name="a" minOccurs="0"/></xs:sequence></xs:complexType>'
+           '<xs:complexType name="E"><xs:complexContent><xs:extension base="B"><xs:sequence><xs:element name="b" minOccurs="0"/>'
+           '</xs:sequence></xs:extension></xs:complexContent></xs:complexType>'
+           '<xs:complexType name="ER"><xs:complexContent><xs:restriction base="E"><xs:sequence><xs:element name="a" minOccurs="0"/>'
+           '<xs:element name="b" minOccurs="0"/></xs:sequence></xs:restriction></xs:complexContent></xs:complexType>'
+           '<xs:simpleType name="LI"><xs:list itemType="xs:int"/></xs:simpleType>'
+           '<xs:simpleType name="LS"><xs:list itemType="ST"/></xs:simpleType>'
+           '<xs:simpleType name="UN"><xs:union memberTypes="ST xs:boolean"/></xs:simpleType>')
+X_DECLARED = ['xs:int', 'ST', 'CE', 'B', 'xs:anyType', 'xs:anySimpleType']
+X_NAMED = ['xs:int', 'ST', 'CE', 'CR', 'CRE', 'B', 'E', 'ER', 'LI', 'LS', 'UN']
+
+
+def x_steps(named, declared):
+    """Derivation methods on the way from named up to declared, or None when declared is not an ancestor."""
+    steps, k = [], named
+    while k != declared:
+        p = X_PARENT.get(k)
+        if p is None:
+            return None
+        steps.append(p[1])
+        k = p[0]
+    return steps
+
+
+def judge_cross_chain(ver, st):
+    """xsi:type across the simple / simple-content / complex border, for elements declared with a built-in, a simple, a
+    simple-content, a complex type or no type at all (xs:anyType), with list and union types as candidates."""
+    out = []
+    for eb in (None, '', 'extension', 'restriction', '#all'):
+        els = ''.join('<xs:element name="d%d"%s%s/>' % (i, '' if t == 'xs:anyType' else ' type="%s"' % t,
+                                                      ' block="%s"' % eb if eb is not None else '')
+                      for i, t in enumerate(X_DECLARED))
+        xsd = '<xs:schema xmlns:xs="%s">%s%s</xs:schema>' % (XS, X_TYPES, els)
+        s = cls_of(ver)(xsd)
+        blk = blockset(eb, '')
+        for (i, decl), named in itertools.product(enumerate(X_DECLARED), X_NAMED):
+            content = '' if named in ('B', 'E', 'ER') else '5'
+            doc = '<d%d %s xmlns:xs="%s" xsi:type="%s">%s</d%d>' % (i, XSI, XS, named, content, i)
+            if named in ('LI', 'LS', 'UN'):
+                # list and union types derive from xs:anySimpleType only; how the blocking keywords apply to that step is
+                # not asserted: judged only for declared types they cannot derive from, and unblocked for the ur-types
+                if decl in ('xs:anyType', 'xs:anySimpleType'):
+                    if blk:
+                        continue
+                    exp = True
+                else:
+                    exp = False
+            else:
+                steps = x_steps(named, decl)
+                exp = steps is not None and not any(m in blk for m in steps)
+            st.case()
+            st.nt((ver, eb, doc))
+            got = s.is_valid(doc)
+            if exp != got:
+                out.append(rec('xsi_type_cross', ver, xsd, doc, exp, got))
+    return out
+
+
+
+def judge_fixed_xsi(ver, st):
+    """fixed values compare in the value space of the DECLARED type also when xsi:type selects a derived type whose values
+    have another representation (xs:integer / xs:int under a declared xs:decimal)."""
+    out = []
+    from decimal import Decimal
+    for fixed in ('1.0', '1', '01.00'):
+        xsd = '<xs:schema xmlns:xs="%s"><xs:element name="f" type="xs:decimal" fixed="%s"/></xs:schema>' % (XS, fixed)
+        s = cls_of(ver)(xsd)
+        for named, text in itertools.product(('xs:decimal', 'xs:integer', 'xs:int', 'xs:nonNegativeInteger'),
+                                             ('1', '1.0', '01', ' 1 ', '+1', '2', '')):
+            doc = '<f %s xmlns:xs="%s" xsi:type="%s">%s</f>' % (XSI, XS, named, text)
+            t = text.strip()
+            if t == '':
+                # the fixed literal is supplied and must itself be valid for the type named by xsi:type (cvc-elt 5.1.1)
+                exp = named == 'xs:decimal' or '.' not in fixed
+            elif named != 'xs:decimal' and '.' in t:
+                exp = False         # not in the lexical space of the integer types
+            else:
+                exp = Decimal(t) == 1
+            st.case()
+            st.nt((ver, fixed, doc))
+            got = s.is_valid(doc)
+            if exp != got:
+                out.append(rec('fixed_under_xsi_type', ver, xsd, doc, exp, got))
+    return out
+
+
 # ------------------------------------------------------------------------------------ (B) substitution
 
 SUB_TYPES = ('<xs:complexType name="B"><xs:sequence><xs:element name="v" type="xs:int" minOccurs="0"/></xs:sequence>'
@@ -413,6 +510,7 @@ def shards(tier, seed):
         out.append(('simple', ver))
         out.append(('subst', ver))
         out.append(('nil', ver))
+        out.append(('cross', ver))
     out.append(('alt', tier, seed))
     return out
 
@@ -436,6 +534,9 @@ def run_shard(desc):
     elif desc[0] == 'subst':
         recs = judge_substitution(desc[1], st)
         st.sample({'matrix': 'head block x head abstract x blockDefault x members h,mB,mE,mR,mA,mm,hx,mX,other'})
+    elif desc[0] == 'cross':
+        recs = judge_cross_chain(desc[1], st) + judge_fixed_xsi(desc[1], st)
+        st.sample({'declared': X_DECLARED, 'named by xsi:type': X_NAMED, 'element block': [None, '', 'extension', 'restriction', '#all']})
     elif desc[0] == 'nil':
         recs = judge_nil_fixed(desc[1], st)
         st.sample({'doc': '<n xmlns:xsi="..." xsi:nil="true"> </n>', 'decl': 'xs:int nillable fixed=5'})
